@@ -347,6 +347,7 @@ func init() {
 		},
 		Run: func(c *Ctx) {
 			lockOracle(c)
+			vmfailExpectOracle(c)
 			c.Rule("scripts built to fail (÷0 and %0 via variables, negative shifts, bad indexes/slices, calls of non-callables, wrong argument counts, bad spreads, throw of arbitrary values, not-iterable, frame-limit recursion 1019..1025 and unbounded, recursion with many locals and nested literals around the 2048-slot limit, failing self tail calls; each placed bare / in try / in catch / in finally / in a callee / unwinding through finally frames / in a loop; panicking Go callbacks: Function.Value, ValueEx, Call, CallName, nil results, Invoker) compiled by the real compiler, run with SetRecover(true) under recover(): oracle = no escaping panic, same VM re-runs the same bytecode identically and then runs a known script with the known result; plus lock-step comparison with the Lean VM model (outcome, instruction count, trace hash, globals) where the model supports the program; distinct = (class, placement, outcome class)")
 			// the known open finding, replayed in a child process
 			if exe, err := os.Executable(); err == nil {
